@@ -18,7 +18,7 @@ RULE = (
     "1-D calls; compared with exact rational overlap weights (1e-12); a homogeneous cell must put weight 1 into exactly "
     "one bin containing it (target_data and bins are handed over times 2**e, e in {0, -43, -60, 30, 100}: an exact scaling); column sums are 1 when the cell lies within the bins; weights >= 0; merging two adjacent bins "
     "adds their rows; reversed bins reverse the rows. Grid.transform(method='conservative') is run with target_data on "
-    "outer or on center (bounds = model interp with extension), random extra dims/order, eagerly and dask-chunked over "
+    "outer, on center (bounds = model interp with extension) or omitted (= the grid's own outer coordinate), random extra dims/order, eagerly and dask-chunked over "
     "non-axis dims under synchronous and threaded schedulers, and compared with W applied to the data; the caller's data, "
     "target_data and bins are byte-identical afterwards and an immediate second call returns the same. Class = (path, n, "
     "#bins, direction, #columns, has homogeneous cell, has value on a bin edge, inside span); non-trivial iff some cell "
@@ -198,9 +198,15 @@ def run_grid(ctx, desc, nontrivial):
     # every overlap fraction is unchanged): tracers of magnitude 1e-13 or 1e9 are redistributed like those of magnitude 1
     SC = 2.0 ** desc.get("scale_exp", 0)
     on_center = desc["path"] == "grid-center"
+    # target_data may be omitted: the axis' own bounds coordinate (the same profile for every column) is then the target_data
+    omit = (not on_center) and desc.get("tdtype", "float64") == "float64" and desc["dseed"] % 6 == 0
+    if omit:
+        thetas = [thetas[0]] * ncol
     pos = ["center", "outer"] + desc["extra_pos"]
     layout = {"axes": [{"name": "Z", "pos": [[p, f"z_{p[:2]}"] for p in pos], "n": n}]}
     ds = gen.build_ds(layout, extra={"col": ncol, "e": 2})
+    if omit:
+        ds = ds.assign_coords(z_ou=("z_ou", np.array(thetas[0], float) * SC))
     g = Grid(ds, coords=gen.layout_coords(layout), periodic=False, autoparse_metadata=False)
     data = gen.quarter_data(desc["dseed"], (2, ncol, n))
     dims = ["e", "col", "z_ce"]
@@ -216,9 +222,10 @@ def run_grid(ctx, desc, nontrivial):
         bounds = thetas
     b = (np.array(bins[::-1] if desc["decreasing"] else bins, float) * SC)
     target = b if desc["target_as"] == "ndarray" else xr.DataArray(b, dims=["dens_lev"], name="dens_lev")
-    newdim = "dens" if desc["target_as"] == "ndarray" else "dens_lev"
+    newdim = ("z_ou" if omit else "dens") if desc["target_as"] == "ndarray" else "dens_lev"
     feats = features(desc)
-    ctx.judged(feats + (desc["dask"], bool(desc["extra_pos"])), nontrivial)
+    ctx.judged(feats + (desc["dask"], bool(desc["extra_pos"]), omit), nontrivial)
+    tdkw = {} if omit else {"target_data": td}
     if desc["dask"]:
         da = da.chunk({"col": 1, "e": 1})
         td = td.chunk({"col": 1})
@@ -226,9 +233,9 @@ def run_grid(ctx, desc, nontrivial):
     keep = (data.copy(), tdv.copy(), b.copy())
     try:
         with dask.config.set(scheduler=desc["dask"] or "synchronous"):
-            r = g.transform(da, "Z", target, target_data=td, method="conservative")
+            r = g.transform(da, "Z", target, method="conservative", **tdkw)
             r = r.compute()
-            r_again = g.transform(da, "Z", target, target_data=td, method="conservative").compute()
+            r_again = g.transform(da, "Z", target, method="conservative", **tdkw).compute()
     except Exception as ex:
         ctx.violation("transform-returns", f"Grid.transform(conservative, target_data on {'center' if on_center else 'outer'}, positions {pos}, dask={desc['dask']}) "
                                            f"raised {type(ex).__name__}: {str(ex)[:250]}")
